@@ -622,6 +622,15 @@ func c15ReinsertLater(c *Ctx) {
 			}
 			return st
 		}
+		h.Value = func(v ssa.Value, _ an.TState) (bool, bool) {
+			if cl, ok := v.(*ssa.Call); ok {
+				if tv, known := cmpTruth(cl, w.sign); known {
+					nCmp++
+					return tv, true
+				}
+			}
+			return false, false
+		}
 		h.Instr = func(in ssa.Instruction, st0 an.TState) an.TState {
 			st := st0.(reinsState)
 			if cl, ok := in.(ssa.CallInstruction); ok && an.CalleeIs(cl, kvPkg, "DB", "Set") {
@@ -793,13 +802,14 @@ func c15FilterRestarts(c *Ctx) {
 				return setInFilter
 			}
 			recv := filter.Params[0]
+			fsc := c.Scope(filter)
 			h := an.THooks{Instr: func(in ssa.Instruction, st an.TState) an.TState {
 				switch x := in.(type) {
 				case *ssa.Store:
 					if fa, ok := x.Addr.(*ssa.FieldAddr); ok && an.FieldVar(fa.X.Type(), fa.Field) == flag {
 						return ansState(true)
 					}
-					if x.Addr == ssa.Value(recv) {
+					if x.Addr == ssa.Value(recv) || fsc.ArgOfParam(x.Addr) == ssa.Value(recv) {
 						return ansState(true) // *c = <another cursor>: every field is assigned
 					}
 				case ssa.CallInstruction:
@@ -817,7 +827,7 @@ func c15FilterRestarts(c *Ctx) {
 			}}
 			good := true
 			why := ""
-			for _, ex := range an.WalkTypestate(filter, ansState(false), h, c.Scope(filter)) {
+			for _, ex := range an.WalkTypestate(filter, ansState(false), h, fsc) {
 				if ex.ErrNil != 0 && !bool(ex.St.(ansState)) {
 					good = false
 					why = fmt.Sprintf("Filter can return successfully at %s without assigning %s, which Eof() reports: after the first scan the flag stays set, and a second xFilter on the cursor (the table as the inner loop of a join, a correlated sub-query) yields no rows", c.P.Pos(ex.Ret.Pos()), flag.Name())
